@@ -321,4 +321,59 @@ theorem wvst_injOn (nm K L1v Lv1 : ℝ) (hnm : 0 < nm) (hK : 0 < K) (hL1 : 0 < L
     Set.InjOn (WVST_pressure nm K L1v Lv1) {n | 0 ≤ n ∧ n < nm} :=
   (wvst_strictMonoOn nm K L1v Lv1 hnm hK hL1 hL2).injOn
 
+/-! ### the numerical inverse `loading(p)` is specified by its certificate
+
+`FHVST.loading` / `WVST.loading` are `scipy.optimize.root` calls (not translated).  What the property asks of an ANSWER `x` to the
+request `p = pressure(n)` is the certificate `pressure(x) = p` (harness: `certified_inverses`, relative residual 1e-6 at the returned
+point).  On the physical range the certificate is all there is to check: -/
+
+/-- a returned point of the physical range that passes the certificate IS the loading -/
+theorem fhvst_certified_root_unique (nm K a1v n x : ℝ) (hnm : 0 < nm) (hK : 0 < K) (ha : -1 ≤ a1v)
+    (hn : 0 ≤ n ∧ n < nm) (hx : 0 ≤ x ∧ x < nm)
+    (hcert : FHVST_pressure nm K a1v x = FHVST_pressure nm K a1v n) : x = n :=
+  fhvst_injOn nm K a1v hnm hK ha hx hn hcert
+
+/-- defect class "success is not certified at the returned point": ANY other point of the range -- a start value, the last iterate of
+a solver that stalled -- fails the certificate, so an answer that is not the loading is always visible to it -/
+theorem fhvst_other_point_not_root (nm K a1v n s : ℝ) (hnm : 0 < nm) (hK : 0 < K) (ha : -1 ≤ a1v)
+    (hn : 0 ≤ n ∧ n < nm) (hs : 0 ≤ s ∧ s < nm) (hne : s ≠ n) :
+    FHVST_pressure nm K a1v s ≠ FHVST_pressure nm K a1v n :=
+  fun h => hne (fhvst_injOn nm K a1v hnm hK ha hs hn h)
+
+/-- ... with the sign of the residual: a start value below the loading (the middle of the coverage range handed back for a loading
+near saturation) gives a pressure strictly below the one asked for -/
+theorem fhvst_start_below_residual_neg (nm K a1v n s : ℝ) (hnm : 0 < nm) (hK : 0 < K) (ha : -1 ≤ a1v)
+    (hs0 : 0 ≤ s) (hsn : s < n) (hn : n < nm) :
+    FHVST_pressure nm K a1v s - FHVST_pressure nm K a1v n < 0 :=
+  sub_neg.mpr (fhvst_strictMonoOn nm K a1v hnm hK ha ⟨hs0, hsn.trans hn⟩ ⟨hs0.trans hsn.le, hn⟩ hsn)
+
+/-- the zero start value (known finding S24c) is no root for any positive loading -/
+theorem fhvst_zero_start_not_root (nm K a1v n : ℝ) (hnm : 0 < nm) (hK : 0 < K) (hn : 0 < n) (hsat : n < nm)
+    (ha : -1 ≤ a1v) : FHVST_pressure nm K a1v 0 ≠ FHVST_pressure nm K a1v n :=
+  fhvst_other_point_not_root nm K a1v n 0 hnm hK ha ⟨hn.le, hsat⟩ ⟨le_rfl, hnm⟩ hn.ne
+
+-- non-vacuity: n_m = 2, K = 1, a1v = 0, the loading 3/2 and the middle of the range 1
+example : FHVST_pressure 2 1 0 1 ≠ FHVST_pressure 2 1 0 (3 / 2) :=
+  fhvst_other_point_not_root 2 1 0 (3 / 2) 1 (by norm_num) (by norm_num) (by norm_num) ⟨by norm_num, by norm_num⟩
+    ⟨by norm_num, by norm_num⟩ (by norm_num)
+
+theorem wvst_certified_root_unique (nm K L1v Lv1 n x : ℝ) (hnm : 0 < nm) (hK : 0 < K) (hL1 : 0 < L1v) (hL2 : 0 < Lv1)
+    (hn : 0 ≤ n ∧ n < nm) (hx : 0 ≤ x ∧ x < nm)
+    (hcert : WVST_pressure nm K L1v Lv1 x = WVST_pressure nm K L1v Lv1 n) : x = n :=
+  wvst_injOn nm K L1v Lv1 hnm hK hL1 hL2 hx hn hcert
+
+theorem wvst_other_point_not_root (nm K L1v Lv1 n s : ℝ) (hnm : 0 < nm) (hK : 0 < K) (hL1 : 0 < L1v) (hL2 : 0 < Lv1)
+    (hn : 0 ≤ n ∧ n < nm) (hs : 0 ≤ s ∧ s < nm) (hne : s ≠ n) :
+    WVST_pressure nm K L1v Lv1 s ≠ WVST_pressure nm K L1v Lv1 n :=
+  fun h => hne (wvst_injOn nm K L1v Lv1 hnm hK hL1 hL2 hs hn h)
+
+theorem wvst_start_below_residual_neg (nm K L1v Lv1 n s : ℝ) (hnm : 0 < nm) (hK : 0 < K) (hL1 : 0 < L1v) (hL2 : 0 < Lv1)
+    (hs0 : 0 ≤ s) (hsn : s < n) (hn : n < nm) :
+    WVST_pressure nm K L1v Lv1 s - WVST_pressure nm K L1v Lv1 n < 0 :=
+  sub_neg.mpr (wvst_strictMonoOn nm K L1v Lv1 hnm hK hL1 hL2 ⟨hs0, hsn.trans hn⟩ ⟨hs0.trans hsn.le, hn⟩ hsn)
+
+example : WVST_pressure 2 1 (1 / 2) (1 / 2) 1 ≠ WVST_pressure 2 1 (1 / 2) (1 / 2) (3 / 2) :=
+  wvst_other_point_not_root 2 1 (1 / 2) (1 / 2) (3 / 2) 1 (by norm_num) (by norm_num) (by norm_num) (by norm_num)
+    ⟨by norm_num, by norm_num⟩ ⟨by norm_num, by norm_num⟩ (by norm_num)
+
 end PgVerif.C10
